@@ -1,9 +1,12 @@
-//! package `meta` (see CONVENTIONS.md): register components here.
+//! package `meta`: side / header metadata (C20–C25)
+pub mod hdr;
+pub mod sanity;
 
 pub fn dispatch(tokens: &[&str]) -> Option<String> {
-    let (c, _args) = tokens.split_first()?;
-    #[allow(clippy::match_single_binding)]
+    let (c, args) = tokens.split_first()?;
     Some(match *c {
+        "sanity" => sanity::run(args),
+        "hdr" => hdr::run(args),
         _ => return None,
     })
 }
